@@ -49,9 +49,25 @@ const c02height = 5
 
 func c02validator(c kit.Committee) *lh.VerifNode {
 	id := c[0].ID
-	cfg := &interfaces.Config{InstanceId: kit.Instance, Communication: &kit.Comm{}, Membership: &kit.Membership{Me: id, Committee: c},
+	// committees rotate with the height: the members of every OTHER height are different identities
+	rot := func(h primitives.BlockHeight) kit.Committee {
+		if h == c02height {
+			return c
+		}
+		return c02other(c)
+	}
+	cfg := &interfaces.Config{InstanceId: kit.Instance, Communication: &kit.Comm{}, Membership: &kit.Membership{Me: id, Committee: c, ForHeight: rot},
 		BlockUtils: &kit.BlockUtils{Me: id}, KeyManager: &kit.KeyManager{Me: id}, OverrideElectionTrigger: &kit.FakeTrigger{}, Storage: kit.NewStore(false)}
 	return lh.NewVerifNode(cfg, func(context.Context, interfaces.Block, []byte) error { return nil }, nil)
+}
+
+// c02other: the committee of the neighbouring heights (same weights, other members).
+func c02other(c kit.Committee) kit.Committee {
+	o := make(kit.Committee, len(c))
+	for i, m := range c {
+		o[i] = kit.Member{ID: []byte(fmt.Sprintf("m%d", i)), Weight: m.Weight}
+	}
+	return o
 }
 
 func c02prev(kind string) []byte {
@@ -96,6 +112,13 @@ func c02build(d c02desc) ([]byte, interfaces.Block, []byte) {
 		}
 	}
 	switch d.Extra {
+	case "othercommittee": // signed by the (same-weight) committee of the previous height instead of this height's
+		nodes = nil
+		for i, m := range c02other(c) {
+			if d.Signers&(1<<uint(i)) != 0 {
+				nodes = append(nodes, &protocol.SenderSignatureBuilder{MemberId: m.ID, Signature: kit.Sig("C", m.ID, ph, raw)})
+			}
+		}
 	case "dup":
 		if first >= 0 {
 			nodes = append(nodes, &protocol.SenderSignatureBuilder{MemberId: c[first].ID, Signature: kit.Sig("C", c[first].ID, ph, raw)})
@@ -242,7 +265,7 @@ func block0(b interfaces.Block) interfaces.Block {
 }
 
 func c02(r *Rec, replay map[string]interface{}) {
-	r.Rule = "structured: committees {4 equal,(1,2,3,4),(1,1,1,3),5 equal,(0,1,1,1,1)} x every signer subset x {none,+duplicate,+outsider with valid key,+bad signature} x header type 0..5 x instance {=,!=} x height {-1,0,+1} x hash {block's, other} x view {0,1,2^64-1} x seed signature {valid, wrong height, garbage, empty} x previous proof {nil, valid, garbage} x {strict, soft} x block {ok, nil} (quick: at most two header/seed/prev deviations per case; thorough: full product), all signatures genuinely valid over the (possibly wrong) header; byte level: every truncation and every offset x {0x00,0xFF,+1,-1} mutation of base proofs. Oracle: acceptance implies the independent reference predicate over the re-parsed bytes; never panics. distinct_nontrivial = distinct (committee, weight class of signer set, deviation set, mode) classes"
+	r.Rule = "structured: committees {4 equal,(1,2,3,4),(1,1,1,3),5 equal,(0,1,1,1,1)} x every signer subset x {none,+duplicate,+outsider with valid key,+bad signature, signed by the rotating committee of the previous height} x header type 0..5 x instance {=,!=} x height {-1,0,+1} x hash {block's, other} x view {0,1,2^64-1} x seed signature {valid, wrong height, garbage, empty} x previous proof {nil, valid, garbage} x {strict, soft} x block {ok, nil} (quick: at most two header/seed/prev deviations per case; thorough: full product), all signatures genuinely valid over the (possibly wrong) header; byte level: every truncation and every offset x {0x00,0xFF,+1,-1} mutation of base proofs. Oracle: acceptance implies the independent reference predicate over the re-parsed bytes; never panics. distinct_nontrivial = distinct (committee, weight class of signer set, deviation set, mode) classes"
 	validators := make([]*lh.VerifNode, len(c02committees))
 	for i, c := range c02committees {
 		validators[i] = c02validator(c)
@@ -304,7 +327,7 @@ func c02(r *Rec, replay map[string]interface{}) {
 	}
 	for ci, c := range c02committees {
 		for s := 0; s < 1<<uint(len(c)); s++ {
-			for _, extra := range []string{"none", "dup", "outsider", "badsig"} {
+			for _, extra := range []string{"none", "dup", "outsider", "badsig", "othercommittee"} {
 				for mt := 0; mt <= 5; mt++ {
 					for _, inst := range []bool{true, false} {
 						for _, hd := range []int{0, -1, 1} {
